@@ -30,7 +30,8 @@ func (f *JWKKeyFinder) FindKey(ctx context.Context, protected, unprotected *Head
 	var alg jwa.SignatureAlgorithm
 	if protected != nil {
 		alg = protected.Algorithm()
-	} else if unprotected != nil {
+	}
+	if alg == jwa.SignatureAlgorithmUnknown && unprotected != nil {
 		alg = unprotected.Algorithm()
 	}
 	if !alg.Available() {
